@@ -25,6 +25,7 @@ var (
 	hookMu   sync.Mutex
 	hookSubs = map[string]*hookSub{}
 	hookOnce sync.Once
+	stalledRuns int32
 	// HooksSeen is set once any feeder hook fired: the tree under test has the call sites.
 	HooksSeen int32
 )
@@ -187,6 +188,13 @@ func RunE2E(seed int64, sc E2EScenario) E2EResult {
 		mu.Lock()
 		defer mu.Unlock()
 		fetches++
+		// a consumer that does not get ahead polls as fast as the mock answers, and the mock keeps every
+		// request/response pair: slow the polling down once a case has seen more fetches than any healthy run
+		if fetches > 400 {
+			time.Sleep(5 * time.Millisecond)
+		} else if fetches > 60 {
+			time.Sleep(time.Millisecond)
+		}
 		var parts []PartResp
 		var throttle int32
 		for _, b := range info.Blocks {
@@ -316,7 +324,10 @@ func RunE2E(seed int64, sc E2EScenario) E2EResult {
 		defer mu.Unlock()
 		return started, started >= 0
 	}
-	idle := 12 * time.Second
+	idle := 6 * time.Second
+	if atomic.LoadInt32(&stalledRuns) > 4 {
+		idle = time.Second // many runs of this process already stalled: the tree is broken, do not wait long for the rest
+	}
 	want := -1
 	i := 0
 	lastProgress := time.Now()
@@ -352,6 +363,7 @@ loop:
 			lastProgress = time.Now()
 		case <-time.After(10 * time.Millisecond):
 			if time.Since(lastProgress) > idle {
+				atomic.AddInt32(&stalledRuns, 1)
 				break loop
 			}
 		}
